@@ -442,9 +442,9 @@ class SymdelDB:
         """
 
         ans = []
-        threshold = max_custom_distance
-        if custom_distance in (None, 'hamming') or max_custom_distance == float('inf'):
-            threshold = self.max_edits
+        # a custom distance is filtered by its own radius and, separately, by max_edits
+        check_edits = custom_distance not in (None, 'hamming')
+        threshold = max_custom_distance if check_edits else self.max_edits
         if custom_distance == 'hamming':
             custom_distance = _hamming_replacement
         elif custom_distance is None:
@@ -465,6 +465,8 @@ class SymdelDB:
             for j in j_indices:
                 dist = custom_distance(seq, self.seqs[j])
                 if dist > threshold:
+                    continue
+                if check_edits and levenshtein(seq, self.seqs[j]) > self.max_edits:
                     continue
                 ans.append((i, j, dist))
 
@@ -531,9 +533,9 @@ def symdel(seqs, max_edits=1, max_returns=None, n_cpu=1,
 
     if seqs2 is None:
         ans = set()
-        threshold = max_custom_distance
-        if custom_distance in (None, 'hamming') or max_custom_distance == float('inf'):
-            threshold = max_edits
+        # a custom distance is filtered by its own radius and, separately, by max_edits
+        check_edits = custom_distance not in (None, 'hamming')
+        threshold = max_custom_distance if check_edits else max_edits
         if custom_distance == 'hamming':
             custom_distance = _hamming_replacement
         elif custom_distance is None:
@@ -546,6 +548,8 @@ def symdel(seqs, max_edits=1, max_returns=None, n_cpu=1,
             for i, j in combinations(values, 2):
                 dist = custom_distance(symdeldb.seqs[i], symdeldb.seqs[j])
                 if dist > threshold:
+                    continue
+                if check_edits and levenshtein(symdeldb.seqs[i], symdeldb.seqs[j]) > max_edits:
                     continue
                 ans.add((i, j, dist))
                 ans.add((j, i, dist))
